@@ -6,12 +6,16 @@
 //! `cursor_stack()` accessor).  Per step one record
 //!
 //!   comp <op> <pre-state> <args> => ok <post-state> | panic:<site>
-//!   ced  <op> <pre-state> <args> => ok <post-state> | panic:<site>
+//!   cedi <op> <pre-state> <args> => ok <post composition> | panic:<site>          (C04's view)
+//!   cedc <op> <pre-state> <args> => ok <cursor> <k> <stack>*k <n> <sym>*n | panic  (C05's view)
 //!
-//! is printed; the Lean driver recomputes the right-hand side from the left-hand side.
+//! is printed; the Lean driver recomputes the right-hand side from the left-hand side.  The two
+//! projections of a `CompositionEditor` step keep the scopes of the two properties apart: a defect
+//! that only loses selections does not break C05's correspondence, one that only misplaces the
+//! cursor does not break C04's.
 //!
 //!   comp state = <n> <sym>*n <gap>*n <m> <sel>*m        sym = s<u16 code> | c<code point>
-//!   ced  state = <cursor> <k> <stack>*k <comp state>     gap = B | K (break) | U (glue) | N
+//!   ced  state = <cursor> <k> <stack>*k <comp state>     gap = B | K (break) | U (glue) | N   (pre-state of cedi/cedc)
 //!   sel = <start>:<stop>:<is_phrase 0|1>:x<hex utf-8>    (post-state selections are sorted as strings:
 //!                                                         `swap_remove` order is not modelled)
 //!
@@ -127,6 +131,14 @@ fn esnap(e: &CompositionEditorProbe) -> EState {
 }
 
 impl EState {
+    /// C05's projection: cursor, cursor stack, symbols
+    fn cursor_toks(&self) -> String {
+        let mut v = vec![self.cursor.to_string(), self.stack.len().to_string()];
+        v.extend(self.stack.iter().map(|x| x.to_string()));
+        v.push(self.c.syms.len().to_string());
+        v.extend(self.c.syms.iter().map(sym_tok));
+        v.join(" ")
+    }
     fn toks(&self, sorted: bool) -> String {
         let mut v = vec![self.cursor.to_string(), self.stack.len().to_string()];
         v.extend(self.stack.iter().map(|x| x.to_string()));
@@ -540,6 +552,11 @@ fn check_inv(c: &CState) -> Vec<String> {
         }
         if s.text.chars().count() != s.stop.saturating_sub(s.start) {
             bad.push(format!("selection {} text length differs from its range", s.tok()));
+        }
+        for j in s.start + 1..s.stop.min(c.len()) {
+            if c.gaps[j] == Gap::Break {
+                bad.push(format!("break at gap {} strictly inside the selection {}", j, s.tok()));
+            }
         }
         for t in &c.sels[i + 1..] {
             if s.intersects(t) {
@@ -989,7 +1006,7 @@ fn ced_session(k: u64, rng: &mut Rng, out: &mut Out, stats: &mut Stats, steps: u
         }
         if rng.chance(1, 8) {
             out.rec(&format!(
-                "ced get {} => {} {} {} {} {} {}",
+                "cedc get {} => {} {} {} {} {} {}",
                 pre.toks(false),
                 e.len(),
                 e.is_empty() as u8,
@@ -1013,11 +1030,13 @@ fn ced_session(k: u64, rng: &mut Rng, out: &mut Out, stats: &mut Stats, steps: u
         }
         hist.push(op.show());
         let res = catch_unwind(AssertUnwindSafe(|| op.run(&mut e)));
-        let lhs = format!("ced {} {} {}", op.name(), pre.toks(false), op.args());
+        let lhs = format!("{} {} {}", op.name(), pre.toks(false), op.args());
+        let lhs = lhs.trim_end();
         match res {
             Ok(()) => {
                 let post = esnap(&e);
-                out.rec(&format!("{} => ok {}", lhs.trim_end(), post.toks(true)));
+                out.rec(&format!("cedi {} => ok {}", lhs, post.c.toks(true)));
+                out.rec(&format!("cedc {} => ok {}", lhs, post.cursor_toks()));
                 if valid && !tainted {
                     stats.oracle_steps_c05 += 1;
                     stats.oracle_steps_c04 += 1;
@@ -1047,7 +1066,8 @@ fn ced_session(k: u64, rng: &mut Rng, out: &mut Out, stats: &mut Stats, steps: u
             Err(p) => {
                 stats.panics += 1;
                 let site = panic_site(p);
-                out.rec(&format!("{} => panic:{}", lhs.trim_end(), site));
+                out.rec(&format!("cedi {} => panic:{}", lhs, site));
+                out.rec(&format!("cedc {} => panic:{}", lhs, site));
                 let post = esnap(&e);
                 if valid && !tainted {
                     out.oracle_fail("C05", "new", &format!(
